@@ -631,6 +631,20 @@ def gen_selsem():
     cs = sel.CompiledSelector("True")
     extra = sorted(k for k in cs.ns if k not in {f.__name__ for f in sel.FUNCTION_WHITELIST})
     out += "Definition compiled_extra_names : list string := %s.\n" % clist([cstr(k) for k in extra])
+    from flow.record.base import DynamicFieldtypeModule
+    from flow.record.base import dynamic_fieldtype
+
+    def same_as_interpreted(k):
+        # what the interpreted engine's Name branch resolves the root to: getattr(dynamic_fieldtype, k)
+        want, got = getattr(dynamic_fieldtype, k), cs.ns[k]
+        if isinstance(want, DynamicFieldtypeModule):
+            return isinstance(got, DynamicFieldtypeModule) and got.path == want.path == k
+        return type(got) is type(want) and got == want       # `path`: the instance attribute of DynamicFieldtypeModule
+
+    dyn = all(same_as_interpreted(k) for k in extra) and isinstance(cs.ns.get("net"), DynamicFieldtypeModule)
+    out += "(* ... every one of them is what the interpreted engine resolves the name to (DynamicFieldtypeModule(<name>), resolved\n"
+    out += "   through the whitelist; a plain module object would resolve net.ipv4 / net.tcp only once that submodule is imported) *)\n"
+    out += "Definition compiled_roots_dynamic : bool := %s.\n" % cbool(dyn)
     import builtins as _b
     out += "(* names Python itself defines (builtins): outside the model unless bound above *)\n"
     out += "Definition python_builtin_names : list string := %s.\n" % clist([cstr(n) for n in sorted(dir(_b)) if n.isidentifier()])
